@@ -17,7 +17,7 @@ theorem C20_cli_search : Extracted.Delivery.cliSuffixes = [".asn", ".asn1"] ∧ 
 
 /-- asn1! is the parse of compile_to_string(..).unwrap().generated -/
 theorem C20_macro_chain : Extracted.Delivery.macroChain = ["add_asn_literal", "compile_to_string", "unwrap", ".generated", "parse", "unwrap"]
-    ∧ Extracted.Delivery.macroNeedles = ["BEGIN"] ∧ Extracted.Delivery.dummyFooter = "END" := by decide
+    ∧ Extracted.Delivery.macroNeedles = ["BEGIN"] ∧ Extracted.Delivery.dummyFooter = "\nEND" := by decide
 
 /-- when compilation fails nothing is written or overwritten, whatever the mode and the destination's state -/
 theorem C20_failure_writes_nothing (w : World) (ext : String) (m : Mode) :
